@@ -1117,3 +1117,50 @@ impl CollectUnicodes for Cmap12<'_> {
         }
     }
 }
+
+#[cfg(googlefonts_fontations_verif)]
+pub(crate) mod verif {
+    //! Entry points to the format 4 / 12 subtable writers on a plain list, for the
+    //! out-of-tree verification harness. Adds no behaviour.
+    use super::*;
+    use write_fonts::read::{FontData, FontRead};
+
+    fn run(
+        f: impl FnOnce(&mut Serializer) -> Result<(), SerializeErrorFlags>,
+    ) -> Result<Vec<u8>, SerializeErrorFlags> {
+        let mut s = Serializer::new(1 << 20);
+        s.start_serialize()?;
+        f(&mut s)?;
+        if s.in_error() {
+            return Err(s.error());
+        }
+        s.end_serialize();
+        Ok(s.copy_bytes())
+    }
+
+    pub(crate) fn serialize_cmap4(
+        language: u16,
+        cp_to_new_gid_list: &[(u32, GlyphId)],
+    ) -> Result<Vec<u8>, SerializeErrorFlags> {
+        // a one-segment format 4 subtable that only carries the language field
+        let mut src: Vec<u8> = Vec::new();
+        for v in [4_u16, 24, language, 2, 2, 0, 0, 0xFFFF, 0, 0xFFFF, 1, 0] {
+            src.extend_from_slice(&v.to_be_bytes());
+        }
+        let table = Cmap4::read(FontData::new(&src))
+            .map_err(|_| SerializeErrorFlags::SERIALIZE_ERROR_READ_ERROR)?;
+        run(|s| table.serialize(s, &Plan::default(), cp_to_new_gid_list))
+    }
+
+    pub(crate) fn serialize_cmap12(
+        language: u32,
+        cp_to_new_gid_list: &[(u32, GlyphId)],
+    ) -> Result<Vec<u8>, SerializeErrorFlags> {
+        let mut src: Vec<u8> = vec![0, 12, 0, 0, 0, 0, 0, 16];
+        src.extend_from_slice(&language.to_be_bytes());
+        src.extend_from_slice(&0_u32.to_be_bytes());
+        let table = Cmap12::read(FontData::new(&src))
+            .map_err(|_| SerializeErrorFlags::SERIALIZE_ERROR_READ_ERROR)?;
+        run(|s| table.serialize(s, &Plan::default(), cp_to_new_gid_list))
+    }
+}
